@@ -66,6 +66,10 @@ MODULES = {
         dict(py='ContentTypeFlags.from_int', coq='ctf_from_int', args=[('flags', INT)]),
         dict(py='ContentTypeFlags.__index__', coq='ctf_index', args=[], ret=INT,
              selfattrs={'encrypted': BOOL, 'disc': BOOL, 'cfm': BOOL, 'optional': BOOL, 'shared': BOOL}),
+        dict(py='ContentInfoRecord.__bytes__', coq='inforec_bytes', args=[], ret=SEQ,
+             selfattrs={'index_offset': INT, 'command_count': INT, 'hash': SEQ}),
+        dict(py='ContentChunkRecord.__bytes__', coq='chunk_bytes', args=[], ret=SEQ, selfattrs={'cindex': INT, 'size': INT, 'hash': SEQ},
+             extra_args=[('id_bytes', SEQ), ('type_word', INT)], rename={'bytes.fromhex(self.id)': 'id_bytes', 'int(self.type)': 'type_word'}),
     ]),
     'smdh': dict(file='pyctr/type/smdh.py', kernels=[
         dict(py='rgb565_to_rgb888_tuple', coq='rgb565_to_rgb888_tuple', args=[('data', SEQ)]),
